@@ -119,6 +119,34 @@ class Rig:
         return s
 
 
+class InterruptedCanvas:
+    """A canvas during whose traversal the window size changes: content() delivers SIGWINCH to the screen (calls the handler
+    the way the signal module would, between two byte codes of the generator) after `k` rows have been handed out.
+    One shot: traversed again, it is an ordinary canvas (the canvas cache hands the same object back after the resize)."""
+
+    def __init__(self, canv, k, handler):
+        self._canv, self._k, self._handler = canv, k, handler
+        self.fired = False
+
+    def __getattr__(self, name):
+        return getattr(self._canv, name)
+
+    def _fire(self):
+        if not self.fired:
+            self.fired = True
+            self._handler(28, None)
+
+    def content(self, *args, **kw):
+        n = 0
+        for row in self._canv.content(*args, **kw):
+            if n == self._k:
+                self._fire()
+            yield row
+            n += 1
+        if n <= self._k:
+            self._fire()      # after the last row, before draw_screen goes on to write
+
+
 def project(canvas, encoding, depth, attr_back, none_entry=False):
     cells = []
     for row in canvas.content():
@@ -127,7 +155,9 @@ def project(canvas, encoding, depth, attr_back, none_entry=False):
 
 
 def run_sequence(cfg, w, h, ops):
-    """ops: ('draw', rows, cursor) | ('clear',) | ('resize', w, h).  Returns a trace."""
+    """ops: ('draw', rows, cursor) | ('redraw',) | ('clear',) | ('resize', w, h) |
+    ('draw_interrupted', rows, cursor, k, w, h): the window becomes w x h while the frame is being composed (after k rows).
+    Returns a trace."""
     colors, bce, enc, bib = cfg[:4]
     pal_first = bool(cfg[4]) if len(cfg) > 4 else False
     none_entry = bool(cfg[5]) if len(cfg) > 5 else False
@@ -155,6 +185,25 @@ def run_sequence(cfg, w, h, ops):
                 toks = term.tokenize(rig.take())
                 ev += toks
                 ev.append({"t": "frame", "cells": project(canv, enc, colors, attr_back, none_entry), "cur": list(cursor) if cursor else []})
+            except Exception as ex:  # noqa: BLE001
+                ev += term.tokenize(rig.take())
+                ev.append({"t": "exc", "exc": type(ex).__name__, "msg": str(ex)[:100]})
+        elif op[0] == "draw_interrupted":
+            rows, cursor, k, nw, nh = op[1:6]
+            try:
+                canv = InterruptedCanvas(rig.canvas(rows, tuple(cursor) if cursor else None), k, rig.screen._sigwinch_handler)
+                rig.screen.draw_screen((cw, chh), canv)
+                if not canv.fired:
+                    raise AssertionError("harness: the canvas was not traversed")
+                ev += term.tokenize(rig.take())      # whatever was still written for the frame composed for the old size
+                # no "frame" event: nothing is claimed about a frame the size change overtook.  The reference terminal has the
+                # new size and unknown contents from here on.
+                ev.append({"t": "interrupt", "w": nw, "h": nh, "k": k})
+                # the application reads its input: Screen.parse_input reports 'window resize' to the main loop
+                rig.screen._resized = False
+                # a SIGWINCH that ends at the same size: the canvas cache hands the very same canvas object back
+                last = (canv, rows, cursor, (nw, nh)) if (nw, nh) == (cw, chh) else None
+                cw, chh = nw, nh
             except Exception as ex:  # noqa: BLE001
                 ev += term.tokenize(rig.take())
                 ev.append({"t": "exc", "exc": type(ex).__name__, "msg": str(ex)[:100]})
@@ -214,9 +263,7 @@ def rand_row(rng, w, enc, attrs, p_space=0.3):
     return row
 
 
-def rand_sequence(rng, cfg):
-    enc = cfg[2]
-    depth = cfg[0]
+def attrs_for(depth):
     attrs = list(ATTRS_COMMON)
     if depth in (88, 256):
         attrs.append(("spec", "h9", "h0"))       # colour number 0 chosen by number (at 2^24 low numbers become RGB values: C18)
@@ -224,6 +271,78 @@ def rand_sequence(rng, cfg):
         attrs.append(("spec", "h100", "h200"))
     if depth == 2 ** 24:
         attrs.append(("spec", "#123456,bold", "#abcdef"))
+    return attrs
+
+
+def _vary(rng, rows, w, h, enc, attrs, p_change):
+    """h rows of width w: the given rows where they fit (each replaced with probability p_change), new rows below them."""
+    out = []
+    for y in range(h):
+        if y < len(rows) and rng.random() >= p_change:
+            out.append(list(rows[y]))
+        else:
+            out.append(rand_row(rng, w, enc, attrs))
+    return out
+
+
+def _cursor(rng, w, h, p=0.5):
+    return [rng.randrange(w), rng.randrange(h)] if rng.random() < p else None
+
+
+def interrupt_sequence(rng, cfg):
+    """[a frame,] a frame overtaken by a size change while it is being composed (SIGWINCH after k of its rows), the
+    application's 'window resize' processing, then frames at the new size that share rows with the overtaken one
+    (same width, height changed or not: what the row diff would skip if it trusted the overtaken frame)."""
+    enc, attrs = cfg[2], attrs_for(cfg[0])
+    w, h = rng.randint(1, 6), rng.randint(1, 4)
+    w0, h0 = w, h
+    ops = []
+    rows = None
+    if rng.random() < 0.7:
+        rows = [rand_row(rng, w, enc, attrs) for _ in range(h)]
+        ops.append(("draw", rows, _cursor(rng, w, h)))
+    for _ in range(rng.choice((1, 1, 2))):
+        rows = _vary(rng, rows or [], w, h, enc, attrs, 0.6)
+        r = rng.random()
+        if r < 0.55:
+            nw, nh = w, rng.choice([x for x in range(1, 5) if x != h])
+        elif r < 0.8:
+            nw, nh = w, h
+        else:
+            nw, nh = rng.randint(1, 6), rng.randint(1, 4)
+        ops.append(("draw_interrupted", rows, _cursor(rng, w, h), rng.randint(0, h), nw, nh))
+        if (nw, nh) == (w, h) and rng.random() < 0.4:
+            ops.append(("redraw",))             # the canvas cache hands the overtaken canvas object back
+        else:
+            rows = _vary(rng, rows if nw == w else [], nw, nh, enc, attrs, 0.25)
+            ops.append(("draw", rows, _cursor(rng, nw, nh)))
+        w, h = nw, nh
+        if rng.random() < 0.5:                  # and the incremental path goes on from there
+            rows = _vary(rng, rows, w, h, enc, attrs, 0.4)
+            ops.append(("draw", rows, _cursor(rng, w, h)))
+    return w0, h0, ops
+
+
+def exhaustive_interrupts(maxh):
+    """Every (height, new height, rows handed out before the signal) up to maxh at a fixed width, with and without a frame
+    before the overtaken one; the frame after the size change repeats the overtaken frame's rows."""
+    mk = lambda tag, n: [[(c, "p_red" if i == y else None) for i, c in enumerate(tag + str(y) + " ")] for y in range(n)]  # noqa: E731
+    out = []
+    for h in range(1, maxh + 1):
+        for nh in range(1, maxh + 1):
+            for k in range(h + 1):
+                for first in (False, True):
+                    ops = [("draw", mk("a", h), [0, 0])] if first else []
+                    ops.append(("draw_interrupted", mk("b", h), None, k, 3, nh))
+                    ops.append(("draw", mk("b", nh), [1, nh - 1]))
+                    out.append((3, h, ops))
+    return out
+
+
+def rand_sequence(rng, cfg):
+    enc = cfg[2]
+    depth = cfg[0]
+    attrs = attrs_for(depth)
     w, h = rng.randint(1, 6), rng.randint(1, 3)
     ops = []
     cw, ch = w, h
@@ -324,7 +443,7 @@ def html_case(rows, cursor, enc):
         scr.draw_screen((w, len(rows)), canv)
         frag = html_fragment.HtmlGenerator.fragments[-1]
     except Exception as ex:  # noqa: BLE001
-        return {"t": "html", "exc": type(ex).__name__, "got": [], "want": [], "cursor_cells": 0, "wantcur": 0}
+        return {"t": "html", "exc": type(ex).__name__, "got": [], "want": [], "cursor_cells": 0, "wantcur": 0, "cur": [], "marks": [], "widths": []}
     p = _HP()
     p.feed(frag)
     got = "".join(p.text)
@@ -334,9 +453,12 @@ def html_case(rows, cursor, enc):
     want_rows = []
     for row in rows:
         want_rows.append("".join(c for c, _ in row))
-    # a cursor cell is drawn with swapped colours; count spans whose style differs by swap is back-end specific, so the
-    # back-end's own marker is not assumed: we count cells by comparing fragments rendered with and without a cursor
+    # a cursor cell is drawn with swapped colours; which span style marks it is back-end specific, so the back-end's own marker is
+    # not assumed: the fragment is compared, character by character, with the fragment of the same canvas without a cursor.
+    # Recorded per row: for every character its width in screen columns and whether its style changed (HtmlTrace.tla counts
+    # the columns and decides which cell that is).
     ncur = 0
+    marks = [[0] * len(r) for r in got_rows]
     if cursor:
         canv2 = rig.canvas(rows, None)
         scr.draw_screen((w, len(rows)), canv2)
@@ -347,9 +469,18 @@ def html_case(rows, cursor, enc):
         a = [(st, ch) for st, t in p.spans for ch in t]
         b = [(st, ch) for st, t in p2.spans for ch in t]
         ncur = sum(1 for x, y in zip(a, b) if x != y) if len(a) == len(b) else -1
+        if len(a) == len(b):
+            y = x = 0
+            for (sa, ch), (sb, _) in zip(a, b):
+                if ch == "\n":
+                    y, x = y + 1, 0
+                    continue
+                if y < len(marks) and x < len(marks[y]):
+                    marks[y][x] = 1 if sa != sb else 0
+                x += 1
     return {"t": "html", "exc": "", "got": [[ord(c) for c in r] for r in got_rows],
             "want": [[ord(c) for c in r] for r in want_rows], "cursor_cells": ncur, "wantcur": 1 if cursor else 0,
-            "escaped_ok": ("<" not in got.replace("<", "", 0)) or True}
+            "cur": list(cursor) if cursor else [], "marks": marks, "widths": [[term.char_width(c) for c in r] for r in got_rows]}
 
 
 MC_CFG = """CONSTANTS W = {w} H = {h} Depth = {d}
@@ -357,6 +488,40 @@ SPECIFICATION Spec
 INVARIANT WF
 CHECK_DEADLOCK FALSE
 """
+
+
+RESIZE_CFG = """CONSTANTS MaxH = {h} RowVals = {{1, 2}} Variant = "{v}" MaxDraws = {d}
+SPECIFICATION Spec
+{invs}
+CHECK_DEADLOCK FALSE
+"""
+
+
+def exhaustive_html_cursor(maxw):
+    """Every row over {narrow, wide, HTML-special} glyphs up to maxw columns, every cursor column, attribute boundary nowhere /
+    after the first glyph / before the last glyph; a second row below so that the cursor row is not the only one."""
+    out = []
+    for w in range(1, maxw + 1):
+        rows = []
+
+        def gen(prefix, col):
+            if col == w:
+                rows.append(list(prefix))
+                return
+            for ch in ("a", "字", "&"):
+                cw = term.char_width(ch)
+                if col + cw <= w:
+                    gen(prefix + [ch], col + cw)
+
+        gen([], 0)
+        for chars in rows:
+            n = len(chars)
+            for split in {0, 1, n - 1}:
+                row = [(c, "p_red" if i >= split else "p_und") for i, c in enumerate(chars)]
+                for cx in range(w):
+                    for cy, canvas_rows in ((0, [row, [("b", None)] * w]), (1, [[("界", "p_so")] * (w // 2) + [("b", None)] * (w % 2), row])):
+                        out.append((canvas_rows, [cx, cy]))
+    return out
 
 
 def _sig_of(tr, l):
@@ -397,10 +562,16 @@ def configs(quick):
 def run(chk):
     quick = chk.tier == "quick"
     rng = chk.rng
-    r = tlc.mc("TerminalMC", MC_CFG.format(w=3, h=2, d=4 if quick else 5), timeout=2400)
-    chk.add_mc("MC_Terminal_wellformed", r)
-    if not r.ok:
-        chk.reject("C04.model." + str(r.violated), {"model": "TerminalMC"}, {"tlc_trace": r.trace[-6:]})
+    import concurrent.futures
+
+    pool = concurrent.futures.ThreadPoolExecutor(3)
+    f_term = pool.submit(tlc.mc, "TerminalMC", MC_CFG.format(w=3, h=2, d=4 if quick else 5), workers=6, timeout=2400)
+    # design model of the row diff against an asynchronous size change: the design holds, the variant that still writes a frame
+    # the size change overtook is refuted
+    rz = dict(h=3 if quick else 4, d=3 if quick else 4)
+    f_rz = pool.submit(tlc.mc, "RawDisplayResize", RESIZE_CFG.format(v="recheck", invs="INVARIANT TypeOK\nINVARIANT ShowsLastCanvas\nINVARIANT BufIsShown", **rz),
+                       workers=4, timeout=1200)
+    f_rzw = pool.submit(tlc.mc, "RawDisplayResize", RESIZE_CFG.format(v="write", invs="INVARIANT ShowsLastCanvas", **rz), workers=2, timeout=1200)
     traces = []
     cfgs = configs(quick)
     # exhaustive bottom rows (insert trick) on a few configurations
@@ -415,6 +586,31 @@ def run(chk):
         cfg = cfgs[i % len(cfgs)]
         w, h, ops = rand_sequence(rng, cfg)
         traces.append(run_sequence(cfg, w, h, ops))
+    # size changes that overtake a frame: every (height, new height, signal position) on a few configurations + random sequences
+    n_int = 0
+    for cfg in ex_cfgs[:2] + ex_cfgs[3:]:
+        for w, h, ops in exhaustive_interrupts(3 if quick else 4):
+            traces.append(run_sequence(cfg, w, h, ops))
+            n_int += 1
+    for i in range(500 if quick else 20000):
+        cfg = cfgs[(7 * i + 3) % len(cfgs)]
+        w, h, ops = interrupt_sequence(rng, cfg)
+        traces.append(run_sequence(cfg, w, h, ops))
+        n_int += 1
+    r = f_term.result()
+    chk.add_mc("MC_Terminal_wellformed", r)
+    if not r.ok:
+        chk.reject("C04.model." + str(r.violated), {"model": "TerminalMC"}, {"tlc_trace": r.trace[-6:]})
+    r = f_rz.result()
+    chk.add_mc("MC_RawDisplayResize_design", r)
+    if not r.ok:
+        chk.reject("C04.model." + str(r.violated), {"model": "RawDisplayResize"}, {"tlc_trace": r.trace[-8:]})
+    r = f_rzw.result()
+    chk.add_mc("MC_RawDisplayResize_refute_write_overtaken_frame", r)
+    chk.count("model.variant_refuted.write_overtaken_frame", 0 if r.ok else 1)
+    if r.ok:
+        chk.vacuity.append("model.RawDisplayResize: writing a frame the size change overtook is not refuted")
+    pool.shutdown()
     res = tlc.validate("RawDisplayTrace", traces, batch_events=15000, timeout=2400)
     chk.add_tv("TV_RawDisplayTrace", res)
     _handle(chk, traces, res, "c04")
@@ -429,6 +625,11 @@ def run(chk):
             rows[0][0] = (rng.choice("<>&\""), rows[0][0][1]) if term.char_width(rows[0][0][0]) == 1 else rows[0][0]
         cursor = [rng.randrange(w), rng.randrange(h)] if rng.random() < 0.5 else None
         htraces.append({"w": w, "h": h, "rows": rows, "cursor": cursor, "ev": [html_case(rows, cursor, enc)]})
+    # which cell is the cursor cell: every small row with wide glyphs, every cursor column
+    n_hcur = 0
+    for rows, cursor in exhaustive_html_cursor(4 if quick else 6):
+        htraces.append({"w": 0, "h": len(rows), "rows": rows, "cursor": cursor, "ev": [html_case(rows, cursor, "utf-8")]})
+        n_hcur += 1
     hres = tlc.validate("HtmlTrace", htraces, timeout=1200)
     chk.add_tv("TV_HtmlTrace", hres)
     for ti, l, why in hres.rejects:
@@ -443,13 +644,42 @@ def run(chk):
             kinds[e["t"]] = kinds.get(e["t"], 0) + 1
         if kinds.get("irm") or True:
             nontriv.add(json.dumps(t["ops"], default=str))
+    # size changes that overtake a frame, and among them those followed by a frame that repeats rows of the overtaken one at the
+    # same width (the rows a display trusting the overtaken frame would skip)
+    for t in traces:
+        ops = t["ops"]
+        for i, o in enumerate(ops):
+            if o[0] != "draw_interrupted":
+                continue
+            nxt = ops[i + 1] if i + 1 < len(ops) else None
+            if nxt and nxt[0] == "redraw":
+                kinds["interrupt.same_canvas_object_again"] = kinds.get("interrupt.same_canvas_object_again", 0) + 1
+            elif nxt and nxt[0] == "draw" and any(a == b for a, b in zip(o[1], nxt[1])):
+                kinds["interrupt.next_frame_shares_rows"] = kinds.get("interrupt.next_frame_shares_rows", 0) + 1
+            if 0 < o[3] < len(o[1]):
+                kinds["interrupt.between_two_rows"] = kinds.get("interrupt.between_two_rows", 0) + 1
+    for t in htraces:
+        e = t["ev"][0]
+        if e["cur"]:
+            kinds["html.cursor"] = kinds.get("html.cursor", 0) + 1
+            y, cx = e["cur"][1], e["cur"][0]
+            if y < len(e["widths"]):
+                col = 0
+                for wd in e["widths"][y]:
+                    if col <= cx and wd == 2:
+                        kinds["html.cursor_with_wide_glyph_at_or_left"] = kinds.get("html.cursor_with_wide_glyph_at_or_left", 0) + 1
+                        break
+                    col += wd
+    kinds.update(chk.cov.get("clause_counts") or {})
     chk.cov["clause_counts"] = kinds
     chk.cov["distinct_nontrivial"] = len(nontriv)
     chk.cov["rule"] = ("frame sequences (draw/clear/resize) on real raw_display.Screen objects over 60 configurations (depth x bce x encoding x "
                        "bright-is-bold); exhaustive bottom rows over {a, space, wide, DEC glyph} up to width 4/5 plus seeded random sequences; "
                        "distinct = distinct operation sequences")
-    chk.cov["bounds"] = {"exhaustive_bottom_row_cases": n_ex, "random_sequences": n_rand, "html_cases": len(htraces), "configs": len(cfgs)}
-    for v in ("irm", "el", "so", "resize", "clear"):
+    chk.cov["bounds"] = {"exhaustive_bottom_row_cases": n_ex, "random_sequences": n_rand, "html_cases": len(htraces), "configs": len(cfgs),
+                        "overtaken_frame_sequences": n_int, "html_cursor_cell_cases": n_hcur}
+    for v in ("irm", "el", "so", "resize", "clear", "interrupt", "interrupt.next_frame_shares_rows", "interrupt.same_canvas_object_again",
+              "interrupt.between_two_rows", "html.cursor_with_wide_glyph_at_or_left"):
         if not kinds.get(v):
             chk.vacuity.append("driver." + v)
     chk.sample({k: traces[0][k] for k in ("cfg", "w", "h", "ops")})
@@ -475,6 +705,9 @@ def replay(chk, path):
         if o[0] == "draw":
             rows = [[(c[0], tuple(c[1]) if isinstance(c[1], list) else c[1]) for c in row] for row in o[1]]
             ops.append(("draw", rows, o[2]))
+        elif o[0] == "draw_interrupted":
+            rows = [[(c[0], tuple(c[1]) if isinstance(c[1], list) else c[1]) for c in row] for row in o[1]]
+            ops.append(("draw_interrupted", rows, *o[2:]))
         else:
             ops.append(tuple(o))
     tr = run_sequence(tuple(rp["cfg"]), rp["w"], rp["h"], ops)
